@@ -220,6 +220,9 @@ func ValidateParameter(ctx context.Context, input *RequestValidationInput, param
 				// form is the default query style and it explodes unless told otherwise,
 				// which is also what the decoder assumes when reading the value back
 				explode := parameter.Explode == nil || *parameter.Explode
+				// a parameter sent with an empty value reads as not supplied: the default takes
+				// the place of that empty value (it is not added next to it, once per validation)
+				q.Del(parameter.Name)
 				populateDefaultQueryParameters(q, parameter.Name, value, explode, parameter.Style)
 				req.URL.RawQuery = q.Encode()
 				// the input caches the parsed query: keep it in step with the request,
